@@ -272,6 +272,27 @@ func buildWorld(c *Case) (*world, error) {
 	}
 	for i := range c.Hosts {
 		h := &c.Hosts[i]
+		if h.Kind != "registry" {
+			continue
+		}
+		for _, t := range h.Chain {
+			if valid(t) && t != i && c.Hosts[t].Kind == "registry" {
+				src := i
+				if valid(h.MirrorOf) && h.MirrorHas {
+					src = h.MirrorOf
+				}
+				for r, rn := range repoNames {
+					ct := c.mkContent(src, r)
+					rp := w.mh[t].Repo(rn)
+					for k := 0; k < 3; k++ {
+						rp.Blobs[ct.Digs[k]] = ct.Blobs[k]
+					}
+				}
+			}
+		}
+	}
+	for i := range c.Hosts {
+		h := &c.Hosts[i]
 		var origin *rm.Host
 		if valid(h.Origin) {
 			origin = w.mh[h.Origin]
@@ -347,6 +368,24 @@ func buildWorld(c *Case) (*world, error) {
 		w.m.AddFault(f)
 	}
 	return w, nil
+}
+
+// hopURL is the Location that sends a request of registry cr's chain to hop number k (0-based).
+func (w *world) hopURL(cr, k int, repo, ref string) string {
+	chain := w.c.Hosts[cr].Chain
+	if k < 0 || k >= len(chain) || !w.validHost(chain[k]) {
+		return ""
+	}
+	t := &w.c.Hosts[chain[k]]
+	q := fmt.Sprintf("?cr=%d&hop=%d&via=rd", cr, k+1)
+	base := w.c.naturalScheme(chain[k]) + "://" + t.Name
+	switch t.Kind {
+	case "storage":
+		return base + "/store/" + repo + "/" + ref + q
+	case "registry":
+		return base + "/v2/" + repo + "/blobs/" + ref + q
+	}
+	return ""
 }
 
 func scopeFor(e *rm.Entry) string {
@@ -665,10 +704,39 @@ func (w *world) intercept(m *rm.Model, h *rm.Host, e *rm.Entry, req *http.Reques
 			return w.challenge(i, ch, e, insufficient)
 		}
 	}
+	// a redirect chain started by registry cr: this host is hop number `hop`, it passes the request on or serves it
+	if q := req.URL.Query(); q.Get("cr") != "" && (e.Method == "GET" || e.Method == "HEAD") {
+		cr, err1 := strconv.Atoi(q.Get("cr"))
+		hop, err2 := strconv.Atoi(q.Get("hop"))
+		if err1 == nil && err2 == nil && w.validHost(cr) && hop >= 1 && hop < len(w.c.Hosts[cr].Chain) && e.Repo != "" && e.Ref != "" {
+			if loc := w.hopURL(cr, hop, e.Repo, e.Ref); loc != "" {
+				r := newResp([]int{307, 302, 308, 301, 303}[(hop+w.c.Hosts[cr].RedirectStatus)%5])
+				r.Header.Set("Location", loc)
+				return r
+			}
+		}
+	}
 	switch hs.Kind {
 	case "registry":
+		if len(hs.Chain) > 0 && (e.Class == "blob-get" || (e.Class == "blob-head" && hs.ChainHead)) && !strings.Contains(e.RawQuery, "via=rd") {
+			if rp, ok := h.Repos[e.Repo]; ok {
+				if _, ok := rp.Blobs[e.Ref]; ok {
+					if loc := w.hopURL(i, 0, e.Repo, e.Ref); loc != "" {
+						st := hs.RedirectStatus
+						switch st {
+						case 301, 302, 303, 307, 308:
+						default:
+							st = 307
+						}
+						r := newResp(st)
+						r.Header.Set("Location", loc)
+						return r
+					}
+				}
+			}
+		}
 		// blob GET answered by a redirect
-		if w.validHost(hs.RedirectTo) && e.Class == "blob-get" && e.Method == "GET" && !strings.Contains(e.RawQuery, "via=rd") {
+		if len(hs.Chain) == 0 && w.validHost(hs.RedirectTo) && e.Class == "blob-get" && e.Method == "GET" && !strings.Contains(e.RawQuery, "via=rd") {
 			if rp, ok := h.Repos[e.Repo]; ok {
 				if _, ok := rp.Blobs[e.Ref]; ok {
 					t := &w.c.Hosts[hs.RedirectTo]
